@@ -174,9 +174,14 @@ Section Proofs.
 
   (* ------------------------------------------------------------------ records, chains, loop invariant *)
   Definition xh_init : list R := jxh (fst initL).
+  (* fixed-step mode with a criterion that does not need ∇ψ(x̂): ψ(x̂), ŷ are evaluated only in the exit block *)
+  Definition late : bool := fixed && negb need.
+  (* ... until then the ŷ buffer is uninitialised memory (model: []) and ψx̂ is the NaN it was constructed with *)
+  Definition hat_untouched (i : it) : Prop := jyh i = [] /\ jpsih i = nnan.
   Definition rec_ok (r : fcbrec (T:=R)) : Prop :=
     let i := fr_it r in
-    checked i /\ qub_ok i /\ glrel0 i /\ (fr_k r <= fp_max_iter P)%nat /\ (fixed = true -> jL i = fp_Lmax P).
+    checked i /\ qub_ok i /\ glrel0 i /\ (fr_k r <= fp_max_iter P)%nat /\ (fixed = true -> jL i = fp_Lmax P) /\
+    (late = true -> hat_untouched i).
   (* record r of iteration k  vs  record r' of iteration k+1 *)
   Definition desc (r r' : fcbrec (T:=R)) : Prop :=
     fr_status r = StBusy /\ fr_k r' = S (fr_k r) /\ halved (fr_it r) (fr_it r') /\ fr_t r' = t_next (fr_t r) /\
@@ -204,6 +209,7 @@ Section Proofs.
     iv_log : Forall rec_ok (fs_log s);
     iv_chain : chain (fs_log s);
     iv_prev : jxh (fs_curr s) = prev_xh (fs_log s);
+    iv_late : late = true -> hat_untouched (fs_curr s);
     iv_link : match fs_log s with
               | r :: tl => fr_status r = StBusy /\ fs_k s = S (fr_k r) /\ halved (fr_it r) (fs_curr s) /\ fs_t s = t_next (fr_t r) /\
                            (fp_noaccel P = true -> jx (fs_curr s) = jxh (fr_it r)) /\
@@ -216,7 +222,7 @@ Section Proofs.
     checked curr /\ qub_ok curr /\ glrel0 curr /\ halved (fs_curr s) curr /\ jx curr = jx (fs_curr s) /\
     (fixed = true -> jL curr = fp_Lmax P) /\ (fs_bt s <= bt)%nat.
   Proof.
-    intros [Hx Hgl Hfix _ _ _ _ _]. unfold fpass_step. cbv zeta.
+    intros [Hx Hgl Hfix _ _ _ _ _ _]. unfold fpass_step. cbv zeta.
     destruct (eprox_cons (fs_curr s) Hx) as [A1 B1].
     set (i1 := eprox (fs_curr s)) in *.
     set (ev := negb fixed || need).
@@ -267,8 +273,19 @@ Section Proofs.
     - exact Hbt.
   Qed.
 
+  (* in `late` mode the first half of a pass never touches ψx̂ / ŷ *)
+  Lemma step_late (s : fstate (T:=R)) curr c5 bt : Inv s -> late = true -> step_ s = Some (curr, c5, bt) ->
+    jyh curr = jyh (fs_curr s) /\ jpsih curr = jpsih (fs_curr s).
+  Proof.
+    intros HI Hl. pose proof (iv_fix s HI) as Hfix. unfold late in Hl. apply andb_prop in Hl. destruct Hl as [Hf Hn].
+    apply negb_true_iff in Hn. specialize (Hfix Hf). unfold fpass_step. cbv zeta. rewrite Hf, Hn. cbn [negb orb andb].
+    assert (Hg : fit_backtrack P (eprox (fs_curr s)) = false).
+    { unfold fit_backtrack, bt_guard. cbn [feval_prox jL]. rewrite Hfix. numR. rewrite Rlt_bool_false by lra. reflexivity. }
+    rewrite (backtrack_guard_false bt_fuel _ (fs_cnt s) (fs_bt s) false Hg). cbn [andb].
+    intros E. inversion E. split; reflexivity.
+  Qed.
+
   (* the iterate the exit block reads: ψ(x̂), ŷ are evaluated late in fixed-step mode when the criterion did not need them *)
-  Definition late : bool := fixed && negb need.
   Lemma exit_final_ok c (curr : it) : checked curr ->
     let cf := if late then epsih c curr else curr in
     final_ok cf /\ jx cf = jx curr /\ jxh cf = jxh curr /\ jp cf = jp curr /\ jgrad cf = jgrad curr /\ jgradh cf = jgradh curr /\ gl_of cf = gl_of curr /\
@@ -305,7 +322,7 @@ Section Proofs.
     halved (fs_curr s) curr -> jx curr = jx (fs_curr s) ->
     fr_k rec = fs_k s -> fr_it rec = curr -> fr_t rec = fs_t s -> chain (rec :: fs_log s).
   Proof.
-    intros HI Hh Hxx Ek Ei Et. destruct HI as [_ _ _ _ _ Hch _ Hlk]. cbn [chain]. split; [|exact Hch].
+    intros HI Hh Hxx Ek Ei Et. destruct HI as [_ _ _ _ _ Hch _ _ Hlk]. cbn [chain]. split; [|exact Hch].
     destruct (fs_log s) as [|r tl].
     - destruct Hlk as (K1 & K2 & K3). rewrite Ek, Ei, Et, Hxx. csplit; assumption.
     - destruct Hlk as (K1 & K2 & K3 & K4 & K5 & K6). split.
@@ -323,7 +340,9 @@ Section Proofs.
     pose proof (exit_final_ok (finc_cb (finc_polls c5)) curr Hck) as Hf. cbv zeta in Hf.
     set (cf := if late then epsih (finc_cb (finc_polls c5)) curr else curr) in *.
     assert (Hrec : rec_ok (mkFCb (fs_k s) curr (fs_t s) (eps_of curr) st)).
-    { unfold rec_ok; cbn [fr_it fr_k]. csplit; try assumption; try apply Hck. apply HI. }
+    { unfold rec_ok; cbn [fr_it fr_k]. csplit; try assumption; try apply Hck; [apply HI|].
+      intros Hl. destruct (step_late s curr c5 bt HI Hl Hst) as [E1 E2]. destruct (iv_late s HI Hl) as [F1 F2].
+      unfold hat_untouched. rewrite E1, E2. split; assumption. }
     constructor; cbn [fo_status fo_iterations fo_eps fo_x fo_y fo_errz fo_final fo_log].
     - exact Hck.
     - exact Hq.
@@ -357,7 +376,9 @@ Section Proofs.
       - csplit; try reflexivity. exists c7. destruct (psi_grad c7 x'); reflexivity. }
     destruct Hnx as (N1 & N2 & N3 & N4).
     assert (Hrec : rec_ok (mkFCb (fs_k s) curr (fs_t s) (eps_of curr) StBusy)).
-    { unfold rec_ok; cbn [fr_it fr_k]. csplit; try assumption; try apply Hck. apply HI. }
+    { unfold rec_ok; cbn [fr_it fr_k]. csplit; try assumption; try apply Hck; [apply HI|].
+      intros Hl. destruct (step_late s curr c5 bt HI Hl Hst) as [E1 E2]. destruct (iv_late s HI Hl) as [F1 F2].
+      unfold hat_untouched. rewrite E1, E2. split; assumption. }
     constructor; cbn [fs_curr fs_k fs_t fs_log].
     - exact N1.
     - apply (glrel0_gl curr); [now symmetry|exact Hgl].
@@ -366,6 +387,9 @@ Section Proofs.
     - constructor; [exact Hrec|apply HI].
     - apply (link_to_chain s curr); try assumption; reflexivity.
     - cbn [prev_xh fr_it]. exact N3.
+    - intros Hl. destruct (step_late s curr c5 bt HI Hl Hst) as [E1 E2]. destruct (iv_late s HI Hl) as [F1 F2].
+      assert (Hy : jyh nx = jyh curr /\ jpsih nx = jpsih curr) by (subst nx; destruct fixed; split; reflexivity).
+      destruct Hy as [Y1 Y2]. unfold hat_untouched. rewrite Y1, Y2, E1, E2. split; assumption.
     - cbn [fr_status fr_k fr_it fr_t]. split; [reflexivity|]. split; [reflexivity|].
       split; [exists 0%nat; cbn [halve_n]; exact N2|]. split; [reflexivity|].
       rewrite N4. subst x'. split; intros E; rewrite E; [reflexivity|]. rewrite (iv_prev s HI). reflexivity.
@@ -393,6 +417,10 @@ Section Proofs.
   Definition first_state (i0 : it) (c0 : fcounters) : fstate (T:=R) :=
     mkFSt (fset_gamma_L i0 (gamma_of_L (fp_Lgamma P) (jL i0)) (jL i0)) 0 1 0 c0 0 [].
 
+  Lemma init_untouched : hat_untouched (fst initL).
+  Proof.
+    unfold finit_L, hat_untouched. destruct fixed; [split; reflexivity|]. destruct (nleb (fp_L0 P) n0); cbv zeta; split; reflexivity.
+  Qed.
   Lemma init_facts : cons_x (fst initL) /\ jx (fst initL) = x_in /\ (fixed = true -> jL (fst initL) = fp_Lmax P).
   Proof.
     unfold finit_L, cons_x. destruct fixed eqn:Ef.
@@ -414,6 +442,7 @@ Section Proofs.
     - constructor.
     - exact I.
     - cbn [prev_xh]. unfold xh_init. rewrite E0. reflexivity.
+    - intros _. pose proof init_untouched as Hu. rewrite E0 in Hu. exact Hu.
     - csplit; try reflexivity. exact Hxx.
   Qed.
 
@@ -597,11 +626,16 @@ Section Proofs.
   Lemma rec_ok_fixed (r : fcbrec (T:=R)) : rec_ok r -> fixed = true -> fp_Lmax P <> 0 ->
     jL (fr_it r) = fp_Lmax P /\ jgam (fr_it r) = fp_Lgamma P / fp_Lmax P.
   Proof.
-    intros (_ & _ & Hg & _ & Hf) Ef HL. specialize (Hf Ef). split; [exact Hf|].
+    intros (_ & _ & Hg & _ & Hf & _) Ef HL. specialize (Hf Ef). split; [exact Hf|].
     assert (HLi : L_init = fp_Lmax P) by (unfold L_init; apply init_facts, Ef).
     pose proof (glrel0_product_factor (fr_it r) ltac:(now rewrite HLi) Hg) as Hp. rewrite Hf in Hp.
     apply (Rmult_eq_reg_r (fp_Lmax P)); [|exact HL]. rewrite Hp. field. exact HL.
   Qed.
+
+  (* fixed-step mode with a criterion that does not need ∇ψ(x̂): EVERY progress callback — the final one included — is shown a ŷ buffer
+     that has never been written and ψ_hat = NaN; the outputs are nevertheless those of eval_ψ at x̂ (fista_exit) *)
+  Lemma rec_ok_late (r : fcbrec (T:=R)) : rec_ok r -> fixed = true -> need = false -> jyh (fr_it r) = [] /\ jpsih (fr_it r) = nnan.
+  Proof. intros (_ & _ & _ & _ & _ & Hl) Ef En. apply Hl. unfold late. now rewrite Ef, En. Qed.
 
   (* ------------------------------------------------------------------ momentum: what the GENERATED recurrence satisfies *)
   Lemma t_next_recurrence t : 1 <= t -> t_next t * (t_next t - 1) = t * t.
